@@ -17,29 +17,117 @@ def OpRoundTrips (dec : EscDec) (ue : Bool) : Op → Prop
 
 theorem asdict_name (op : Op) :
     ∃ rest, op.asdict = .obj (("op".toList, .str op.name.toList) :: rest) := by
-  sorry
+  cases op <;> exact ⟨_, rfl⟩
+
+/-! ### Member lookup in the printed dicts -/
+
+theorem pv_dictGet_hd {α} (k : Str) (v : α) (rest : List (Str × α)) :
+    dictGet ((k, v) :: rest) k = some v := by
+  simp [dictGet]
+
+theorem pv_dictGet_tl {α} (k k' : Str) (v : α) (rest : List (Str × α)) (h : k' ≠ k) :
+    dictGet ((k', v) :: rest) k = dictGet rest k := by
+  simp [dictGet, h]
+
+theorem pv_opPointer (dec : EscDec) (ue : Bool) (kvs : List (Str × J)) (key s : Str)
+    (ps : List Part) (hg : dictGet kvs key = some (.str s)) (hp : Pointer.parse dec ue s = .ok ps) :
+    opPointer dec ue kvs key = .ok ps := by
+  simp only [opPointer, hg, hp]; rfl
+
+theorem pv_opValue (kvs : List (Str × J)) (key : Str) (v : J) (hg : dictGet kvs key = some v) :
+    opValue kvs key = .ok v := by
+  simp only [opValue, hg]; rfl
+
+/-- The `path` / `value` members of `{"op": name, "path": path, "value": v}`. -/
+theorem pv_members_pv (dec : EscDec) (ue : Bool) (name path : Str) (v : J) (ps : List Part)
+    (hp : Pointer.parse dec ue path = .ok ps) :
+    opPointer dec ue [("op".toList, .str name), ("path".toList, .str path), ("value".toList, v)]
+      "path".toList = .ok ps ∧
+    opValue [("op".toList, .str name), ("path".toList, .str path), ("value".toList, v)]
+      "value".toList = .ok v :=
+  ⟨pv_opPointer dec ue _ _ path ps
+      (by rw [pv_dictGet_tl _ _ _ _ (by decide), pv_dictGet_hd]) hp,
+   pv_opValue _ _ v
+      (by rw [pv_dictGet_tl _ _ _ _ (by decide), pv_dictGet_tl _ _ _ _ (by decide), pv_dictGet_hd])⟩
+
+/-- The `path` member of `{"op": name, "path": path}`. -/
+theorem pv_members_p (dec : EscDec) (ue : Bool) (name path : Str) (ps : List Part)
+    (hp : Pointer.parse dec ue path = .ok ps) :
+    opPointer dec ue [("op".toList, .str name), ("path".toList, .str path)] "path".toList = .ok ps :=
+  pv_opPointer dec ue _ _ path ps (by rw [pv_dictGet_tl _ _ _ _ (by decide), pv_dictGet_hd]) hp
+
+/-- The `from` / `path` members of `{"op": name, "from": src, "path": path}`. -/
+theorem pv_members_fp (dec : EscDec) (ue : Bool) (name src path : Str) (ss ps : List Part)
+    (hs : Pointer.parse dec ue src = .ok ss) (hp : Pointer.parse dec ue path = .ok ps) :
+    opPointer dec ue [("op".toList, .str name), ("from".toList, .str src), ("path".toList, .str path)]
+      "from".toList = .ok ss ∧
+    opPointer dec ue [("op".toList, .str name), ("from".toList, .str src), ("path".toList, .str path)]
+      "path".toList = .ok ps :=
+  ⟨pv_opPointer dec ue _ _ src ss
+      (by rw [pv_dictGet_tl _ _ _ _ (by decide), pv_dictGet_hd]) hs,
+   pv_opPointer dec ue _ _ path ps
+      (by rw [pv_dictGet_tl _ _ _ _ (by decide), pv_dictGet_tl _ _ _ _ (by decide), pv_dictGet_hd]) hp⟩
 
 theorem build_asdict (dec : EscDec) (ue : Bool) (op : Op) (h : OpRoundTrips dec ue op) :
     buildOp dec ue op.asdict = .ok op := by
-  sorry
+  cases op with
+  | add p v =>
+    obtain ⟨hp, hv⟩ := pv_members_pv dec ue "add".toList (encode p) v p h
+    simp only [Op.asdict, buildOp, pv_dictGet_hd, hp, hv]; rfl
+  | addne p v =>
+    obtain ⟨hp, hv⟩ := pv_members_pv dec ue "addne".toList (encode p) v p h
+    simp only [Op.asdict, buildOp, pv_dictGet_hd, hp, hv]; rfl
+  | addap p v =>
+    obtain ⟨hp, hv⟩ := pv_members_pv dec ue "addap".toList (encode p) v p h
+    simp only [Op.asdict, buildOp, pv_dictGet_hd, hp, hv]; rfl
+  | remove p =>
+    have hp := pv_members_p dec ue "remove".toList (encode p) p h
+    simp only [Op.asdict, buildOp, pv_dictGet_hd, hp]; rfl
+  | replace p v =>
+    obtain ⟨hp, hv⟩ := pv_members_pv dec ue "replace".toList (encode p) v p h
+    simp only [Op.asdict, buildOp, pv_dictGet_hd, hp, hv]; rfl
+  | move s d =>
+    obtain ⟨hs, hp⟩ := pv_members_fp dec ue "move".toList (encode s) (encode d) s d h.1 h.2
+    simp only [Op.asdict, buildOp, pv_dictGet_hd, hs, hp]; rfl
+  | copy s d =>
+    obtain ⟨hs, hp⟩ := pv_members_fp dec ue "copy".toList (encode s) (encode d) s d h.1 h.2
+    simp only [Op.asdict, buildOp, pv_dictGet_hd, hs, hp]; rfl
+  | test p v =>
+    obtain ⟨hp, hv⟩ := pv_members_pv dec ue "test".toList (encode p) v p h
+    simp only [Op.asdict, buildOp, pv_dictGet_hd, hp, hv]; rfl
+
+theorem pv_mapM_map_ok {ε α β} (f : β → Except ε α) (g : α → β) (xs : List α)
+    (h : ∀ x ∈ xs, f (g x) = .ok x) : (xs.map g).mapM f = .ok xs := by
+  induction xs with
+  | nil => rfl
+  | cons x xs ih =>
+    rw [List.map_cons, List.mapM_cons, h x (by simp), ih (fun y hy => h y (by simp [hy]))]
+    rfl
+
+theorem build_empty (dec : EscDec) (ue : Bool) : build dec ue (.arr []) = .ok [] := by
+  rfl
+
+theorem build_is_mapM (dec : EscDec) (ue : Bool) (ds : List J) (hne : ds ≠ []) :
+    build dec ue (.arr ds) = ds.mapM (buildOp dec ue) := by
+  cases ds with
+  | nil => exact absurd rfl hne
+  | cons d ds => rfl
 
 theorem build_asdicts (dec : EscDec) (ue : Bool) (ops : List Op) (hne : ops ≠ [])
     (h : ∀ op ∈ ops, OpRoundTrips dec ue op) :
     build dec ue (asdicts ops) = .ok ops := by
-  sorry
-
-theorem build_empty (dec : EscDec) (ue : Bool) : build dec ue (.arr []) = .ok [] := by
-  sorry
-
-theorem build_is_mapM (dec : EscDec) (ue : Bool) (ds : List J) (hne : ds ≠ []) :
-    build dec ue (.arr ds) = ds.mapM (buildOp dec ue) := by
-  sorry
+  unfold asdicts
+  rw [build_is_mapM dec ue _ (by simpa using hne)]
+  exact pv_mapM_map_ok _ _ _ (fun op hop => build_asdict dec ue op (h op hop))
 
 theorem build_addap (dec : EscDec) (ue : Bool) (path : Str) (v : J) (ps : List Part)
     (hp : Pointer.parse dec ue path = .ok ps) :
     buildOp dec ue (.obj [("op".toList, .str "addap".toList), ("path".toList, .str path), ("value".toList, v)])
       = .ok (.addap ps v) := by
-  sorry
+  obtain ⟨hp', hv⟩ := pv_members_pv dec ue "addap".toList path v ps hp
+  simp only [buildOp, pv_dictGet_hd, hp', hv]; rfl
+
+/-! ### `addne` / `addap` against `add` -/
 
 theorem addne_spec (doc v : J) (path : List Part) :
     applyOp doc (.addne path v) =
@@ -47,16 +135,15 @@ theorem addne_spec (doc v : J) (path : List Part) :
        | .error e => .error e
        | .ok (some (.obj kvs), tok, _) => if dictHas kvs (partStr tok) then .ok doc else applyOp doc (.add path v)
        | .ok _ => applyOp doc (.add path v)) := by
-  sorry
-
-theorem addne_existing_member (kvs : List (Str × J)) (k : Str) (v old : J) (h : dictGet kvs k = some old) :
-    applyOp (.obj kvs) (.addne [.key k] v) = .ok (.obj kvs) ∧
-    applyOp (.obj kvs) (.add [.key k] v) = .ok (.obj (dictSet kvs k v)) := by
-  sorry
-
-theorem addne_new_member (kvs : List (Str × J)) (k : Str) (v : J) (h : dictGet kvs k = none) :
-    applyOp (.obj kvs) (.addne [.key k] v) = applyOp (.obj kvs) (.add [.key k] v) := by
-  sorry
+  show applyAddNe doc path v = _
+  unfold applyAddNe
+  cases h : target doc path with
+  | error e => rfl
+  | ok t =>
+    rcases t with ⟨parent, tok, obj⟩
+    cases parent with
+    | none => rfl
+    | some p => cases p <;> rfl
 
 theorem addap_spec (doc v : J) (path : List Part) :
     applyOp doc (.addap path v) =
@@ -64,14 +151,60 @@ theorem addap_spec (doc v : J) (path : List Part) :
        | .error e => .error e
        | .ok (some (.arr xs), _, none) => writeBack doc path.dropLast (.arr (xs ++ [v]))
        | .ok _ => applyOp doc (.add path v)) := by
-  sorry
+  show applyAddAp doc path v = _
+  unfold applyAddAp
+  cases h : target doc path with
+  | error e => rfl
+  | ok t =>
+    rcases t with ⟨parent, tok, obj⟩
+    cases parent with
+    | none => rfl
+    | some p => cases p <;> cases obj <;> rfl
+
+theorem pv_target_obj_key (kvs : List (Str × J)) (k : Str) :
+    target (.obj kvs) [.key k] = .ok (some (.obj kvs), .key k, dictGet kvs k) := by
+  cases hd : dictGet kvs k with
+  | some old =>
+    simp [target, resolveParent, resolveParts, getitem, hd, pa_bind_ok, pa_pure, partStr]
+  | none =>
+    cases k with
+    | nil => simp [target, resolveParent, resolveParts, getitem, hd, pa_bind_ok, pa_pure, pa_throw, partStr]
+    | cons c rest =>
+      by_cases hc : (c = '~' ∨ c = '#') ∧ dictHas kvs rest = true
+      · simp [target, resolveParent, resolveParts, getitem, hd, pa_bind_ok, pa_pure, pa_throw, partStr, hc]
+      · simp [target, resolveParent, resolveParts, getitem, hd, pa_bind_ok, pa_pure, pa_throw, partStr, hc]
+
+theorem addne_existing_member (kvs : List (Str × J)) (k : Str) (v old : J) (h : dictGet kvs k = some old) :
+    applyOp (.obj kvs) (.addne [.key k] v) = .ok (.obj kvs) ∧
+    applyOp (.obj kvs) (.add [.key k] v) = .ok (.obj (dictSet kvs k v)) := by
+  constructor
+  · rw [addne_spec, pv_target_obj_key]
+    simp [dictHas, partStr, h]
+  · show applyAdd _ _ _ = _
+    unfold applyAdd
+    rw [pv_target_obj_key]
+    rfl
+
+theorem addne_new_member (kvs : List (Str × J)) (k : Str) (v : J) (h : dictGet kvs k = none) :
+    applyOp (.obj kvs) (.addne [.key k] v) = applyOp (.obj kvs) (.add [.key k] v) := by
+  rw [addne_spec, pv_target_obj_key]
+  simp [dictHas, partStr, h]
 
 theorem addap_unresolvable_index (xs : List J) (v : J) (n : Nat) (h : xs.length ≤ n) :
     applyOp (.arr xs) (.addap [.idx n] v) = .ok (.arr (xs ++ [v])) := by
-  sorry
+  have ht := pa_target_arr_idx (.arr xs) [] xs n rfl
+  rw [List.getElem?_eq_none h] at ht
+  rw [addap_spec]
+  simp only [List.nil_append] at ht
+  rw [ht]
+  rfl
 
 theorem addap_resolvable_index (xs : List J) (v : J) (n : Nat) (h : n < xs.length) :
     applyOp (.arr xs) (.addap [.idx n] v) = applyOp (.arr xs) (.add [.idx n] v) := by
-  sorry
+  have ht := pa_target_arr_idx (.arr xs) [] xs n rfl
+  rw [List.getElem?_eq_getElem h] at ht
+  rw [addap_spec]
+  simp only [List.nil_append] at ht
+  rw [ht]
 
 end JP.Lemmas
